@@ -462,8 +462,12 @@ CLI_JOBS = {
     'quick': [('PSP', ['-ff', 'martini3001', '-nt', '-noscfix']),
               ('PSP', ['-ff', 'martini3001', '-nt', '-noscfix', '-sep']),
               ('PPS', ['-ff', 'martini3001', '-noscfix']),
-              ('SPSP', ['-ff', 'martini22', '-noscfix'])],
-    'thorough': [('PSP', ['-ff', 'martini3001', '-nt', '-noscfix']),
+              ('SPSP', ['-ff', 'martini22', '-noscfix']),
+              ('WwW', ['-ff', 'martini3001', '-elastic', '-noscfix']),
+              ('Ss', ['-ff', 'martini22', '-elastic', '-noscfix'])],
+    'thorough': [('WwW', ['-ff', 'martini3001', '-elastic', '-noscfix']), ('Ss', ['-ff', 'martini22', '-elastic', '-noscfix']),
+                 ('SsS', ['-ff', 'elnedyn22']), ('WwwW', ['-ff', 'martini3001', '-elastic', '-eunit', 'chain', '-noscfix']),
+                 ('PSP', ['-ff', 'martini3001', '-nt', '-noscfix']),
                  ('PSP', ['-ff', 'martini3001', '-nt', '-noscfix', '-sep']),
                  ('PPS', ['-ff', 'martini3001', '-noscfix']),
                  ('SPSP', ['-ff', 'martini22', '-noscfix']),
